@@ -52,6 +52,7 @@ def check(prog, rep):
     from .shared import rule_bundled_tables_from_package, rule_ligand_block_model
     rep.guarded(rule_ligand_block_model, prog, rep, "R7")
     rep.guarded(rule_bundled_tables_from_package, prog, rep, "R8")
+    rep.guarded(rule_files_read, prog, rep, "R10")
 
 
 # ---------------------------------------------------------------------------------- R1
@@ -479,6 +480,9 @@ NAMES_REFERENCE = ["RES", "RESB", "XRES", "NALA", "NGLY", "GLY"]
 NAMES_BLOCKS = [
     {"name": "RES", "use": "FFR", "atoms": [("CA1", "FA"), ("ZZ", "NOPE")]},
     {"name": "N(ALA|GLY)", "use": "X$group", "atoms": []},
+    # two blocks that match no residue of the force field (one with, one without a source residue): their atom aliases must die with them
+    {"name": "NOSUCH", "use": None, "atoms": [("ZQ", "H")]},
+    {"name": "GHOST", "use": "NOFF", "atoms": [("ZR", "HA2"), ("ZS", "FA")]},
     {"name": "GLY", "use": None, "atoms": [("HA3", "HA2")]},
 ]
 
@@ -569,8 +573,8 @@ def rule_fullmatch(prog, rep):
                        "force-field entry RESQ are not touched by the pattern RES"),
         "group": (["NALA", "NGLY", "XALA"], "$group is replaced by the first capture group of the matched name and only existing source "
                   "residues are copied"),
-        "no-state-leak": (["GLY"], "atom aliases of one <residue> block do not leak into the next; a block without <useresname> only adds "
-                          "atom aliases"),
+        "no-state-leak": (["GLY"], "atom aliases of one <residue> block do not leak into the next - also when the block matched no residue of the "
+                          "force field; a block without <useresname> only adds atom aliases"),
     }
     for key, (names, what) in aspects.items():
         d = diff(names)
@@ -744,3 +748,56 @@ def rule_state_from_current_atoms(prog, rep):
             continue
         ok = names["built with O2'"] == names["built without O2', O2' added since"] and names["built without O2'"] == names["built with O2', O2' removed since"]
         r.add(f"history|{cls}", ok, f"{cls}: state names {names}" + ("" if ok else " - residues with the same atoms are named differently depending on how they were built"), where)
+
+
+# ---------------------------------------------------------------------------------- R10
+def rule_files_read(prog, rep, rid="R10"):
+    """Forcefield.__init__ is evaluated on a model file system for every combination of built-in / user-supplied parameter file and built-in /
+    user-supplied names file: the parameter rows come from the user's file when one is given and from the bundled table otherwise, and the
+    names are resolved through the user's names file whenever one is given (whichever parameter file is in use), through the bundled one
+    otherwise.  What is decided: which files are opened and which text reaches the names parser."""
+    from ..fsmodel import PKG_ROOT as pkg
+    from ..guards import Flow, Obj
+    from ..objinterp import ObjRunner
+    from .shared import FileSystemModel
+    r = rep.rule(rid, "the parameter file and the names file that are read are the ones the options select", floor=4)
+    fi = prog.func("forcefield.py", "Forcefield.__init__")
+    where = f"pdb2pqr/forcefield.py:{fi.node.lineno} (Forcefield.__init__)"
+    files = {f"{pkg}/dat/AMBER.DAT": "ALA N -0.4157 1.8240\n", f"{pkg}/dat/AMBER.names": "<bundled-amber-names/>",
+             f"{pkg}/dat/PARSE.DAT": "ALA N -0.4000 1.5000\n", f"{pkg}/dat/PARSE.names": "<bundled-parse-names/>",
+             "/work/mine.dat": "ALA N -0.1111 1.1111\n", "/work/mine.names": "<user-names/>", "/work/other.names": "<other-user-names/>"}
+    cases = [
+        ("built-in force field", ("amber", None, None), f"{pkg}/dat/AMBER.DAT", "<bundled-amber-names/>"),
+        ("built-in force field with the user's names file", ("amber", None, "/work/mine.names"), f"{pkg}/dat/AMBER.DAT", "<user-names/>"),
+        ("another built-in force field with another user names file", ("parse", None, "/work/other.names"), f"{pkg}/dat/PARSE.DAT", "<other-user-names/>"),
+        ("user parameter file and user names file", ("mine", "/work/mine.dat", "/work/mine.names"), "/work/mine.dat", "<user-names/>"),
+        ("user parameter file named like a built-in force field, user names file", ("parse", "/work/mine.dat", "/work/other.names"), "/work/mine.dat", "<other-user-names/>"),
+    ]
+    for label, (ff, userff, usernames), want_dat, want_names in cases:
+        fs = FileSystemModel(dict(files))
+        parsed = []
+
+        def extra(runner, interp, call, args, kw, fs=fs, parsed=parsed):
+            name = U(call.func)
+            if name.endswith("parseString") and args:
+                parsed.append(args[0])
+                return None
+            if name.endswith("make_parser"):
+                return None
+            return fs.hook(runner, interp, call, args, kw)
+
+        run = ObjRunner(prog, "forcefield.py", extra_hook=extra)
+        run.module_env("io.py")["__file__"] = f"{pkg}/io.py"
+        definition = Obj({"__class__": "Definition", "map": {}, "patches": []})
+        key = f"files|{label}"
+        try:
+            obj = run.new("Forcefield", ff, definition, userff, usernames)
+        except Flow as fl:
+            r.bad(key, f"Forcefield({ff!r}, userff={userff!r}, usernames={usernames!r}) stops with {fl.value}", where)
+            continue
+        opened = [p for p, mode in fs.opened if "w" not in mode and "a" not in mode]
+        dat_read = [p for p in opened if p.lower().endswith(".dat")]
+        rows = sorted(obj["map"]) if isinstance(obj.get("map"), dict) else None
+        ok = dat_read == [want_dat] and parsed == [want_names]
+        r.add(key, ok, f"Forcefield({ff!r}, userff={userff!r}, usernames={usernames!r}): parameter file(s) read {dat_read} (expected {want_dat}), "
+              f"text handed to the names parser {parsed} (expected {want_names!r}); residues loaded {rows}", where)
